@@ -1103,6 +1103,14 @@ def run_prior_density(cell, seed):
                     vals = [math.log(v) for v in vals if v > 0]
                 x = np.array(vals)[:, None] if batched else np.array(vals)
                 cmp("log_prob", p.log_prob(_T(x)), ref(pre(x), *np_args), f"values={vals}")
+                # a prior of the same class built with OTHER parameters that receives this prior's state evaluates this prior's density
+                # (nothing the density depends on may be derived once at construction and kept outside the state)
+                if cls != "UniformPrior":
+                    p2 = P(*[_T(np.asarray(v, float) * 1.7 + 0.3) for v in case.values()], **kw)
+                else:
+                    p2 = P(_T(np.asarray(case["a"], float) - 1.0), _T(np.asarray(case["b"], float) + 1.0), **kw)
+                p2.load_state_dict(p.state_dict())
+                cmp("log_prob-after-load", p2.log_prob(_T(x)), ref(pre(x), *np_args), "prior built with other parameters, then load_state_dict of this one")
                 # normalisation (documented densities of the standard families integrate to one)
                 if not batched and not cell["tf"] and cls != "HorseshoePrior":
                     lp = lambda t: p.log_prob(_T(t)).item()  # noqa: E731
@@ -1141,6 +1149,10 @@ def run_prior_density(cell, seed):
                 if cell["tf"]:
                     x = np.log(x[(x > 0).all(-1)])
                 cmp("log_prob", p.log_prob(_T(x)), R.logpdf_smoothed_box(pre(x), a, b, s).sum(-1), "Gaussian tails of std sigma outside [a,b], flat inside, normalised")
+                p2 = P(_T(np.asarray(case["a"], float) - 0.3), _T(np.asarray(case["b"], float) + 0.7), sigma=_T(np.asarray(case["sigma"], float) * 3.0), **kw)
+                p2.load_state_dict(p.state_dict())
+                cmp("log_prob-after-load", p2.log_prob(_T(x)), R.logpdf_smoothed_box(pre(x), a, b, s).sum(-1),
+                    "prior built with other parameters, then load_state_dict of this one")
                 if d == 1 and not cell["tf"]:
                     a0, b0, s0 = float(a[0]), float(b[0]), float(s[0])
                     mass = R.quad_mass(lambda t: p.log_prob(_T([t])).item(), a0 - 40 * s0, b0 + 40 * s0, [a0 - s0, a0, b0, b0 + s0])
